@@ -27,6 +27,8 @@ CORPORA.update({
     'all-unknown': [('partial', 'a b c')],
     'partly-tagged': [('tokenized', 'ab/N c ab/V'), ('partial', 'c/X|a b')],
     'tagged-long': [('tokenized', 'abc/N a/X abc/V a/Y')],
+    # every tagged token has exactly one tag: the tag models carry no classifier at all (no tag n-gram weights), while the boundary model has type n-grams
+    'tagged-unambiguous': [('tokenized', 'ab/N c/X ab/N'), ('tokenized', 'c/X a b')],
 })
 CFGS_QUICK = [(0, 0, 0, 0), (1, 1, 1, 1), (2, 2, 2, 2), (1, 3, 1, 3), (1, 1, 2, 2), (2, 2, 1, 1), (0, 2, 2, 0), (2, 0, 0, 2), (3, 1, 1, 3), (1, 2, 2, 1), (1, 3, 2, 1)]
 DICTS = {'none': ([], 4), 'a-ab': (['a', 'ab'], 1), 'dup': (['a', 'a'], 2)}
@@ -66,9 +68,9 @@ def jobs(tier, seed):
             for dn in sorted(DICTS):
                 if tier == 'quick' and dn != 'none' and cn not in ('abc-ba', 'tagged', 'all-nb'):
                     continue
-                if tier == 'quick' and cfg not in ((1, 1, 1, 1), (1, 3, 1, 3), (0, 0, 0, 0), (1, 1, 2, 2)) and cn in ('mixed', 'one-char', 'tagged-partial', 'ab-c'):
+                if tier == 'quick' and cfg not in ((1, 1, 1, 1), (1, 3, 1, 3), (0, 0, 0, 0), (1, 1, 2, 2)) and cn in ('mixed', 'one-char', 'tagged-partial', 'ab-c', 'tagged-unambiguous'):
                     continue
-                if tier == 'quick' and cfg not in ((1, 1, 1, 1), (1, 3, 1, 3), (2, 2, 1, 1), (0, 2, 2, 0), (3, 1, 1, 3), (1, 3, 2, 1)) and cn in ('tagged', 'tagged-long', 'partly-tagged', 'tagged-partial'):
+                if tier == 'quick' and cfg not in ((1, 1, 1, 1), (1, 3, 1, 3), (2, 2, 1, 1), (0, 2, 2, 0), (3, 1, 1, 3), (1, 3, 2, 1)) and cn in ('tagged', 'tagged-long', 'partly-tagged', 'tagged-partial', 'tagged-unambiguous'):
                     continue
                 js.append({'name': 'train/%s/%s/%s' % ('-'.join(map(str, cfg)), cn, dn), 'kind': 'train', 'cfg': list(cfg), 'corpus': cn, 'dict': dn, 'seed': seed,
                            'tagdict': cn in ('tagged', 'partly-tagged')})
